@@ -72,13 +72,15 @@ Outcome = Tuple[str, Optional[ast.AST], Any]
 class Explorer:
     def __init__(self, folder: Folder, fn: FuncInfo, oracle: Optional[Oracle] = None,
                  on_call: Optional[CallHook] = None, value_oracle: Optional[Callable[[ast.expr, Dict[str, Any]], Any]] = None,
-                 max_paths: int = 256) -> None:
+                 max_paths: int = 256, enter_loops: bool = False) -> None:
         self.folder = folder
         self.fn = fn
         self.oracle = oracle or (lambda t, env: None)
         self.on_call = on_call
         self.value_oracle = value_oracle
         self.max_paths = max_paths
+        self.enter_loops = enter_loops  # walk a `for` body once (targets unknown) instead of skipping it
+        self._loop_exits: List[List[Dict[str, Any]]] = []
         self.outcomes: List[Outcome] = []
         self.envs: List[Dict[str, Any]] = []  # environment of each outcome, same order
 
@@ -296,6 +298,24 @@ class Explorer:
                 eh["$handlers"] = tuple(eh.get("$handlers", ())) + (h,)
                 out2.extend(self.block(h.body, eh))
             return out2
+        if isinstance(s, (ast.For, ast.AsyncFor)) and self.enter_loops and not s.orelse:
+            # one symbolic iteration: the loop variables are unknown; zero iterations are possible too
+            self.value(s.iter, env)
+            inner = dict(env)
+            for n in ast.walk(s.target):
+                if isinstance(n, ast.Name):
+                    inner[n.id] = UNKNOWN
+            self._loop_exits.append([])
+            after = self.block(s.body, inner)
+            after = after + self._loop_exits.pop()
+            merged = dict(env)
+            for e2 in after:
+                for k, v in e2.items():
+                    if k.startswith("$") and k not in merged:
+                        merged[k] = v
+                    elif merged.get(k, v) is not v and merged.get(k, v) != v:
+                        merged[k] = UNKNOWN
+            return [merged]
         if isinstance(s, (ast.For, ast.AsyncFor, ast.While, ast.With, ast.AsyncWith, ast.Try)):
             # not followed: every name (and text accumulator) the statement may assign becomes unknown;
             # a `return` inside it is reported with an unknown value
@@ -313,6 +333,9 @@ class Explorer:
                     self.outcomes.append(("raise", n, None))
                     self.envs.append(env)
             return [env]
+        if isinstance(s, (ast.Continue, ast.Break)) and self._loop_exits:
+            self._loop_exits[-1].append(env)
+            return []
         if isinstance(s, (ast.Continue, ast.Break)):
             # the way out of a loop body that is explored on its own
             self.outcomes.append(("continue" if isinstance(s, ast.Continue) else "break", s, None))
